@@ -17,6 +17,8 @@ import (
 	"io"
 	"log"
 	"os"
+	"runtime/debug"
+	"strings"
 	"testing"
 	"time"
 
@@ -27,7 +29,7 @@ import (
 var coreNames = []string{"hsmem", "memory", "localdisk", "diskpacked-default", "blobpacked", "encrypt", "replica2", "namespace"}
 
 type bspec struct {
-	spec *bk.Spec
+	name string
 	core bool
 }
 
@@ -38,7 +40,7 @@ func chooseSpecs() []bspec {
 	for _, n := range coreNames {
 		for i := range all {
 			if all[i].Name == n {
-				out = append(out, bspec{&all[i], true})
+				out = append(out, bspec{n, true})
 			}
 		}
 	}
@@ -53,7 +55,7 @@ func chooseSpecs() []bspec {
 					continue next
 				}
 			}
-			out = append(out, bspec{&all[i], false})
+			out = append(out, bspec{all[i].Name, false})
 		}
 	}
 	return out
@@ -72,7 +74,7 @@ type group struct {
 }
 
 func (gr *group) name() string {
-	return fmt.Sprintf("%s/%s/%s/T%d/%s/chunk%d", gr.Scenario, gr.bs.spec.Name, gr.Path, gr.TLen, gr.Pre, gr.Chunk)
+	return fmt.Sprintf("%s/%s/%s/T%d/%s/chunk%d", gr.Scenario, gr.bs.name, gr.Path, gr.TLen, gr.Pre, gr.Chunk)
 }
 
 const chunkSize = 24
@@ -107,13 +109,19 @@ var bigSizes = []int{maxBlob - 1, maxBlob, maxBlob + 1}
 
 func allGroups(specs []bspec) []*group {
 	var out []*group
-	// big groups first: they are the long ones, k%n spreads them evenly
-	for _, S := range bigSizes {
+	// big groups first: they are the long ones, k%n spreads them evenly.
+	// quick: one group per (backend, path) holding the few boundary cases of all three sizes (TLen 0 = all);
+	// thorough: one group per size with the full variant x ref list.
+	sizes := []int{0}
+	if vk.Thorough() {
+		sizes = bigSizes
+	}
+	for _, S := range sizes {
 		for _, bs := range specs {
 			if !bs.core {
 				continue
 			}
-			for _, p := range bigPaths(kindOf(bs.spec.Name)) {
+			for _, p := range bigPaths(kindOf(bs.name)) {
 				out = append(out, &group{Scenario: "big", bs: bs, Path: p, TLen: S, Pre: "absent"})
 			}
 		}
@@ -121,7 +129,7 @@ func allGroups(specs []bspec) []*group {
 	for _, L := range smallLens() {
 		nv := len(smallVariants(smallT(L)))
 		for _, bs := range specs {
-			for _, p := range smallPaths(kindOf(bs.spec.Name)) {
+			for _, p := range smallPaths(kindOf(bs.name)) {
 				for _, pre := range []string{"absent", "present"} {
 					for ch := 0; ch*chunkSize < nv; ch++ {
 						out = append(out, &group{Scenario: "small", bs: bs, Path: p, TLen: L, Pre: pre, Chunk: ch})
@@ -138,13 +146,24 @@ func allGroups(specs []bspec) []*group {
 func modesFor(path string, v variant, full bool, bodyLen int) []string {
 	var m []string
 	switch path {
-	case "receive", "direct", "put", "nohash", "mp1":
+	case "receive", "direct", "put", "nohash":
 		if path == "nohash" && !full && !v.Reduced {
 			return []string{"whole"}
 		}
+		if !full && !v.Reduced {
+			return []string{"whole", "byte1"}
+		}
 		m = append(m, simpleModes...)
-		if full || v.Reduced {
-			m = append(m, errModes(bodyLen)...)
+		m = append(m, errModes(bodyLen, true)...)
+	case "mp1":
+		if !full && !v.Reduced {
+			return []string{"whole", "byte1"}
+		}
+		m = append(m, simpleModes...)
+		if full {
+			m = append(m, errModes(bodyLen, true)...)
+		} else if v.Core {
+			m = append(m, errModes(bodyLen, false)...) // every offset of the multipart body
 		}
 	case "mp3:1":
 		if full || v.Reduced {
@@ -152,8 +171,8 @@ func modesFor(path string, v variant, full bool, bodyLen int) []string {
 		} else {
 			m = []string{"whole"}
 		}
-		if full && v.Reduced {
-			m = append(m, errModes(bodyLen)...)
+		if full && v.Core {
+			m = append(m, errModes(bodyLen, false)...)
 		}
 	case "mp3:0", "mp3:2":
 		if full {
@@ -206,7 +225,7 @@ func (gr *group) cases() []*tcase {
 				bodyLen = len(mpBody(mpParts(gr.Path, R, v.Data)))
 			}
 			for _, mode := range modesFor(gr.Path, v, full, bodyLen) {
-				out = append(out, &tcase{Scenario: "small", Tier: vk.Tier(), Backend: gr.bs.spec.Name, Path: gr.Path, TLen: gr.TLen, Pre: gr.Pre, Chunk: gr.Chunk,
+				out = append(out, &tcase{Scenario: "small", Tier: vk.Tier(), Backend: gr.bs.name, Path: gr.Path, TLen: gr.TLen, Pre: gr.Pre, Chunk: gr.Chunk,
 					Off: v.Name, RefKind: kind, Ref: R.String(), Mode: mode, T: T, O: v.Data, R: R, matchFull: refMatches(R, v.Data)})
 			}
 		}
@@ -234,7 +253,7 @@ func (r *runner) scenario(c *tcase) *vk.Scenario {
 func execGroup(gr *group, cases []*tcase, upto int, count func(c *tcase, obs string, g *genv), onProblem func(c *tcase, p *problem) bool) error {
 	big := gr.Scenario == "big"
 	fresh := func() (*genv, error) {
-		g, err := newGenv(gr.bs.spec)
+		g, err := newGenv(gr.bs.name)
 		if err != nil {
 			return nil, err
 		}
@@ -309,10 +328,20 @@ func (r *runner) runGroup(gr *group) error {
 		sc.Transitions += g.calls
 		sc.States += 1 + g.added
 	}
+	dirtyN := 0
 	return execGroup(gr, cases, -1, count, func(c *tcase, p *problem) bool {
 		sig := signature(c, p.class)
-		if r.book.note(sig, p.dirty) {
+		if r.book.note(sig) {
 			r.confirm(gr, cases, c, p, sig)
+		}
+		if p.dirty {
+			dirtyN++
+		}
+		if dirtyN > 30 && !c.Audit {
+			// mass failure: every case wrecks its world; the verdict is clear, do not grind on
+			sc.Exhaustive = false
+			sc.Note = fmt.Sprintf("group %s abandoned after %d world-corrupting violations", gr.name(), dirtyN)
+			return true
 		}
 		return r.book.stopped
 	})
@@ -336,7 +365,7 @@ func (r *runner) confirm(gr *group, cases []*tcase, c *tcase, p *problem, sig st
 	}
 	minimal := true
 	for i := 0; i < 5 && minimal; i++ {
-		q, err := runMinimal(gr.bs.spec, c)
+		q, err := runMinimal(gr.bs.name, c)
 		if err != nil {
 			r.res.EngineError("confirm %s: %v", sig, err)
 			return
@@ -359,7 +388,7 @@ func (r *runner) confirm(gr *group, cases []*tcase, c *tcase, p *problem, sig st
 	r.res.Violate(sc, sig, "(needs the history of its group) "+p.detail, map[string]any{"how": "history", "case": c})
 }
 
-func runMinimal(spec *bk.Spec, c *tcase) (*problem, error) {
+func runMinimal(spec string, c *tcase) (*problem, error) {
 	g, err := newGenv(spec)
 	if err != nil {
 		return nil, err
@@ -400,6 +429,7 @@ func TestCheck(t *testing.T) {
 	if os.Getenv("VERIF_VERBOSE") == "" {
 		log.SetOutput(io.Discard)
 	}
+	debug.SetGCPercent(300) // the big scenario churns 16 MiB buffers
 	res := vk.New("C02")
 	res.Rule = "input-shape enumeration: every (ref, offered bytes, source reader) of the bounded grammar — offered = true content T (len 0,1,33 [thorough +2,65]; 16MiB-1,16MiB,16MiB+1), every truncation, every single-bit flip, one-byte extensions, every adjacent transposition, reversal; refs = sha1/sha224/sha256 of T and of the offered bytes, a sha224-named sha256 digest, md5-/sha512-/foo-0; readers = whole, no-length, 1-byte reads, data+EOF, error after every k (error alone / with the last bytes) — through every ingest path (Receive, ReceiveNoHash, direct ReceiveBlob of self-verifying stores, PUT and multipart handlers in-process and over a socket, 3-part batches with the case at each position) on every backend, from a prestate where the ref is absent and one where it already holds the true content. A case is one real upload plus Fetch/Stat/Enumerate/lower-store/BlobHub observation; it is counted distinct/non-trivial by (path family, backend kind, oracle verdict, observed result class, ref-present-before). states = worlds built + uploads that added a blob; transitions = calls into perkeep code"
 	res.Assumptions = []string{
@@ -415,10 +445,30 @@ func TestCheck(t *testing.T) {
 		return
 	}
 	groups := allGroups(r.specs)
+	if os.Getenv("VERIF_COUNT") != "" {
+		// debugging aid: size of the space, nothing is executed
+		n := map[string]int{}
+		ng := 0
+		for _, gr := range groups {
+			if gr.Scenario == "big" {
+				continue // counting them would hash 16 MiB buffers
+			}
+			cs := gr.cases()
+			if len(cs) > 0 {
+				ng++
+				n[gr.Scenario+"/"+pathFamily(gr.Path)+" core="+fmt.Sprint(gr.bs.core)] += len(cs)
+			}
+		}
+		fmt.Println("groups", len(groups), "non-empty small groups", ng, n)
+		return
+	}
 	cut := ""
 	for k, gr := range groups {
 		if !vk.Mine(k) {
 			continue
+		}
+		if only := os.Getenv("VERIF_ONLY"); only != "" && !strings.Contains(gr.name(), only) {
+			continue // debugging aid: restrict a hand-run to some groups
 		}
 		if time.Now().After(vk.Deadline()) {
 			cut = "budget exhausted before group " + gr.name()
@@ -440,7 +490,7 @@ func TestCheck(t *testing.T) {
 		sc.Bound = boundText(sc.Name)
 		if cut != "" {
 			sc.Exhaustive = false
-			sc.Note = cut + " (groups are explored in a fixed order; everything before is complete)"
+			sc.Note = cut + " (groups are explored in a fixed order; everything before is complete) " + sc.Note
 		}
 	}
 	res.Write()
@@ -472,8 +522,11 @@ func (r *runner) replay(rp map[string]any) {
 	}
 	var gr *group
 	for _, bs := range r.specs {
-		if bs.spec.Name == c.Backend {
+		if bs.name == c.Backend {
 			gr = &group{Scenario: c.Scenario, bs: bs, Path: c.Path, TLen: c.TLen, Pre: c.Pre, Chunk: c.Chunk}
+			if c.Scenario == "big" {
+				gr.TLen = c.GroupTLen
+			}
 		}
 	}
 	if gr == nil {
@@ -496,7 +549,7 @@ func (r *runner) replay(rp map[string]any) {
 		p = historyProblem(gr, cases, c.Index)
 	default:
 		var err error
-		if p, err = runMinimal(gr.bs.spec, cc); err != nil {
+		if p, err = runMinimal(gr.bs.name, cc); err != nil {
 			r.res.EngineError("replay: %v", err)
 			return
 		}
